@@ -119,7 +119,8 @@ PROPS = {
         "props_files": ["C13"],
         "theorems": ["C13_request_refines_spec", "C13_location_is_native_path", "C13_failed_request_changes_nothing", "C13_one_response_per_request_in_order",
                      "C13_first_failure_stops_execution", "C13_all_executed_without_failure", "C13_cases_exhaustive",
-                     "C13_loop_total", "C13_tree_stays_tree"],
+                     "C13_loop_total", "C13_tree_stays_tree", "C13_tx_loop_shape", "C13_tx_same_responses_everywhere",
+                     "C13_tx_once", "C13_tx_sender_shows_responses"],
         "components": ["fsmodel", "recv", "send"],
         "rule": "Component recv (transaction clause): the lock-step scripts of the receive transaction, a quarter of which carry filestore "
                 "requests in their Metadata PDU (create a file, make a directory; fresh names, so each succeeds once and would fail if run "
@@ -145,11 +146,14 @@ PROPS = {
                       "NotPerformed without effect, and always terminates; trees stay well-formed. Tied to the code by bounded-exhaustive and "
                       "random request lists run through the real receiver loop. This is the right level for the filestore clauses of the property, "
                       "which quantify over all request sequences.",
-        "level_note": "Transaction clause (the list runs only in a finalisation that ends without error, once per transaction, in order; the "
-                      "same responses reach the user and the Finished PDU): no separate theorem - it follows from C04 (finalisation cannot "
-                      "recur, filestore frozen afterwards) and the structure of the model's finalize_receive; it is tied by the recv stream "
-                      "with requests and decided on the real code by the C13 oracle there. That the sending user sees the same responses is "
-                      "the sender model copying them from the Finished PDU (not a theorem). Trusted: Coq kernel; extraction; driver/harness; the behaviour of std::fs on a directory tree as modelled in "
+        "level_note": "Transaction clause, theorems over Model/Recv.v and Model/Send.v for ANY filestore: the loop of finalize_receive executes the "
+                      "requests left to right up to and including the first failure and reports the rest not-performed, one response per request "
+                      "(C13_tx_loop_shape); the step that runs them hands the same list to the user's Finished indication, to the state the "
+                      "Finished PDU is built from, and leaves the filestore the loop left (C13_tx_same_responses_everywhere); once the "
+                      "receive-data phase is left no operation sequence changes the filestore or the recorded responses (C13_tx_once); a Finished "
+                      "PDU handed to the send transaction yields a Finished indication with exactly its responses "
+                      "(C13_tx_sender_shows_responses). NOT a theorem: 'only in a finalisation that ends without error' (decided by the C13 "
+                      "oracle of the recv stream on the real code; with an Ignore handler CFDP lets the finalisation continue after a fault). Trusted: Coq kernel; extraction; driver/harness; the behaviour of std::fs on a directory tree as modelled in "
                       "FsModel.v (compared with the real filesystem on every run, not proved); path resolution per C12.",
         "assumptions": ["std::fs behaves on the tree as modelled: no permission failures, no symbolic links, no concurrent modification, a failing "
                         "call changes nothing",
